@@ -27,13 +27,19 @@ def root(j, lab):
 
 
 def value_of(i, j, lab):
+    """the label VALUE (the runtime string): renamed values contain a blank, a non-ASCII letter, a tab, a quote and a backslash"""
     r = root(j, lab)
-    return "v-%d.%d é" % (i, r) if lab["vals"][r - 1]["kind"] == "renamed" else fname(i, r)
+    return "v-%d.%d é\t\"q\"\\" % (i, r) if lab["vals"][r - 1]["kind"] == "renamed" else fname(i, r)
+
+
+def rust_lit(s):
+    """the string as a Rust literal body: escape sequences for tab, quote, backslash, and \\u{..} for the non-ASCII letter"""
+    return "".join({"\t": "\\t", '"': '\\"', "\\": "\\\\", "é": "\\u{e9}"}.get(ch, ch) for ch in s)
 
 
 def decl_of(i, j, lab):
     """text after the field name in the declaration: '' for a plain value, ': "value"' otherwise"""
-    return "" if lab["vals"][j - 1]["kind"] == "plain" else ': "%s"' % value_of(i, j, lab)
+    return "" if lab["vals"][j - 1]["kind"] == "plain" else ': "%s"' % rust_lit(value_of(i, j, lab))
 
 
 def update(kind, amt):
@@ -99,10 +105,10 @@ def gen_case(ci, labels, perm, kind, auto, etag=None):
             acc2 = "s" + "".join((".get(E%s_%d::%s)" % (etag, i, fname(i, j))) if labels[i - 1]["enum"] else ".%s" % fname(i, j) for i, j in enumerate(p, 1))
             forms.append((2, acc2))
         if not auto:
-            acc3 = "s" + "".join('.try_get("%s").unwrap()' % value_of(i, j, labels[i - 1]) for i, j in enumerate(p, 1))
+            acc3 = "s" + "".join('.try_get("%s").unwrap()' % rust_lit(value_of(i, j, labels[i - 1])) for i, j in enumerate(p, 1))
             forms.append((3, acc3))
             if n >= 2:   # mixed: field first, try_get afterwards
-                acc4 = "s.%s" % fname(1, p[0]) + "".join('.try_get("%s").unwrap()' % value_of(i, j, labels[i - 1]) for i, j in list(enumerate(p, 1))[1:])
+                acc4 = "s.%s" % fname(1, p[0]) + "".join('.try_get("%s").unwrap()' % rust_lit(value_of(i, j, labels[i - 1])) for i, j in list(enumerate(p, 1))[1:])
                 forms.append((4, acc4))
         total = 0
         for f, acc in forms:
@@ -134,7 +140,7 @@ def gen_case(ci, labels, perm, kind, auto, etag=None):
             lines.append('        none_ok &= s.try_get("%s").is_none();      // a renamed value is addressed by its value, not by its field name' % fname(1, 1))
         if n >= 2:
             lines.append('        none_ok &= s.%s.try_get("__undeclared__").is_none();' % fname(1, 1))
-            lines.append('        none_ok &= s.%s.try_get("%s").is_none();' % (fname(1, 1), value_of(1, 1, labels[0])))
+            lines.append('        none_ok &= s.%s.try_get("%s").is_none();' % (fname(1, 1), rust_lit(value_of(1, 1, labels[0]))))
     lines.append("        #[allow(unused_mut)] let mut mid: Vec<serde_json::Value> = vec![];")
     if auto:
         # the same accessor paths from a second thread, flushed there: its updates must arrive through ITS thread-local metrics,
